@@ -322,8 +322,15 @@ class _OpaqueStr:
     len(s.encode()) cannot verify)."""
 
     def __init__(self, tag, blob):
+        from pyvc.sym import cur
         self.tag = tag
         self.blob = blob
+        # number of code points: a symbol of its own, related to the byte length only by the
+        # UTF-8 bounds cl <= bl <= 4*cl
+        self.char_len = cur().int("cl_" + tag)
+        cur().assume(self.char_len >= 0)
+        cur().assume(self.char_len <= blob.length)
+        cur().assume(blob.length <= 4 * self.char_len)
 
     def encode(self, enc="utf-8", errors="strict"):
         if enc.lower().replace("-", "") != "utf8":
